@@ -61,7 +61,8 @@ type Exec struct {
 	builders   []*mocker.Builder
 	st         map[int]*tstate
 	phUsed     map[int]bool
-	keep       []interface{} // callbacks kept alive by the harness (dropped by dropref)
+	keep       []interface{}                    // callbacks kept alive by the harness (dropped by dropref)
+	handles    map[[2]int]mocker.ExportedMocker // mocker handle returned by the last fresh-lookup apply per (builder, target)
 	opi        int
 }
 
@@ -93,7 +94,7 @@ func (x *Exec) how(ti int) int {
 
 // NewExec creates an interpreter for ops.
 func NewExec(env *world.Env, p *world.Plan, ops []world.Op) *Exec {
-	return &Exec{env: env, p: p, Ops: ops, st: map[int]*tstate{}, phUsed: map[int]bool{}}
+	return &Exec{env: env, p: p, Ops: ops, st: map[int]*tstate{}, phUsed: map[int]bool{}, handles: map[[2]int]mocker.ExportedMocker{}}
 }
 
 // Mocked reports whether the model says target ti is currently mocked by this interpreter.
@@ -160,8 +161,7 @@ func shortName(n string) string {
 }
 
 func (x *Exec) fail(sig, format string, a ...interface{}) {
-	x.env.Res.At = x.at()
-	x.env.Fail(sig, format, a...)
+	x.env.FailAt(x.at(), sig, format, a...)
 }
 
 // checkImage evaluates the text-image and page oracles.
@@ -470,9 +470,17 @@ func (x *Exec) step(op world.Op) {
 		t := Targets[op.T]
 		s := x.state(op.T)
 		rec := &thunk.Rec{}
-		m := t.Lookup(x.builder(op.B), op.N)
+		var m mocker.ExportedMocker
+		if op.F&2 != 0 {
+			// the caller kept the handle of an earlier apply, cancelled it, and now re-applies through it
+			m = x.handles[[2]int{op.B, op.T}]
+			x.env.Probe("reapply_through_kept_handle")
+		} else {
+			m = t.Lookup(x.builder(op.B), op.N)
+			x.handles[[2]int{op.B, op.T}] = m
+		}
 		var cb interface{}
-		if op.F == 1 {
+		if op.F&1 == 1 {
 			rec.IsOrigin = true
 			cb = t.MkOrig(rec)
 			x.phUsed[op.T] = true
@@ -485,12 +493,12 @@ func (x *Exec) step(op world.Op) {
 		x.keep = append(x.keep, cb)
 		m.Apply(cb)
 		s.owner, s.rec, s.stub, s.results = op.B, rec, nil, rec.Results
-		if op.F == 1 {
+		if op.F&1 == 1 {
 			s.kind = kCbOrigin
 		} else {
 			s.kind = kCb
 		}
-		x.env.T("apply %s origin=%d", shortName(t.Name), op.F)
+		x.env.T("apply %s origin=%d handle=%d", shortName(t.Name), op.F&1, op.F>>1)
 	case "ret":
 		t := Targets[op.T]
 		s := x.state(op.T)
@@ -525,7 +533,11 @@ func (x *Exec) step(op world.Op) {
 	case "cancel":
 		t := Targets[op.T]
 		s := x.state(op.T)
-		t.Lookup(x.builder(op.B), op.N).Cancel()
+		if op.F&2 != 0 {
+			x.handles[[2]int{op.B, op.T}].Cancel()
+		} else {
+			t.Lookup(x.builder(op.B), op.N).Cancel()
+		}
 		if s.owner == op.B {
 			*s = tstate{kind: kOrig, owner: -1}
 		}
@@ -535,6 +547,11 @@ func (x *Exec) step(op world.Op) {
 		for _, s := range x.st {
 			if s.owner == op.B {
 				*s = tstate{kind: kOrig, owner: -1}
+			}
+		}
+		for k := range x.handles {
+			if k[0] == op.B {
+				delete(x.handles, k)
 			}
 		}
 		if op.N == 1 { // retire: this builder object is never used again
@@ -564,6 +581,11 @@ func (x *Exec) step(op world.Op) {
 			x.builders[op.B] = nil
 		}
 		x.keep = nil
+		for k := range x.handles {
+			if k[0] == op.B {
+				delete(x.handles, k)
+			}
+		}
 		for _, s := range x.st {
 			if s.owner == op.B {
 				s.owner = -2
@@ -690,6 +712,39 @@ func (x *Exec) bad(op world.Op) {
 			res[pos] = int8(1)
 		}
 		f = func() { t.Lookup(b, x.how(op.T)).Return(res...) }
+	case 11:
+		desc = "Returns(sequence containing a value of a different size)"
+		if t.Typ.NumOut() == 0 {
+			return
+		}
+		n := 1 + r.Intn(3)
+		badAt := r.Intn(n)
+		var seq []interface{}
+		for i := 0; i < n; i++ {
+			res := val.GenResults(r, t.Typ)
+			if i == badAt {
+				pos := -1
+				for j := range res {
+					if t.Typ.Out(j).Kind() != reflect.Interface {
+						pos = j
+					}
+				}
+				if pos < 0 {
+					return
+				}
+				if t.Typ.Out(pos).Size() == 1 {
+					res[pos] = [5]int64{}
+				} else {
+					res[pos] = int8(1)
+				}
+			}
+			if len(res) == 1 {
+				seq = append(seq, res[0])
+			} else {
+				seq = append(seq, res)
+			}
+		}
+		f = func() { t.Lookup(b, x.how(op.T)).Returns(seq...) }
 	case 7:
 		desc = "ExportFunc(unknown symbol).Apply"
 		cb := t.MkCb(&thunk.Rec{})
